@@ -409,6 +409,12 @@ func (h *Host) register() {
 		})
 		must(h.dr.ConvertAndAddFunction("pv", func() { h.call("fn", "pv") }))
 		must(h.dr.ConvertAndAddFunction("enter", func(n string) { h.call("fn", "enter", n) }))
+		must(h.dr.ConvertAndAddFunction("pw", func(name string, x float64) {
+			h.call("fn", "pw", name, x)
+			if h.st != nil {
+				h.st.SetNumberValue(name, x)
+			}
+		}))
 		must(h.dr.ConvertAndAddFunction("pfail", func(x float64) (float64, error) { h.call("fn", "pfail", x); return 0, hostError(int(x)) }))
 	}
 	for _, hs := range h.spec.Handlers {
